@@ -18,6 +18,9 @@ pub struct Lexer<'a> {
     op_i: usize,
     /// Error accumulator.
     errs: super::ErrorAccumulator<'a>,
+    /// Set by [`Lexer::next_or_retry`] when it skipped an invalid character
+    /// and should be called again.
+    retry: bool,
 }
 
 /// Opaque marker of a closing parenthesis.
@@ -52,6 +55,7 @@ impl<'a> Lexer<'a> {
             op: Self::build(source),
             op_i: 0,
             errs,
+            retry: false,
         }
     }
 
@@ -67,6 +71,7 @@ impl<'a> Lexer<'a> {
             op: self.op.clone(),
             op_i: self.op_i,
             errs: self.errs.clone(),
+            retry: false,
         };
         (self.l, self.op_i) = match closing_paren {
             Some(c) => (c.source_idx.get() + 1, c.op_i),
@@ -180,6 +185,20 @@ impl<'a> Iterator for Lexer<'a> {
     type Item = Token<'a>;
 
     fn next(&mut self) -> Option<Token<'a>> {
+        // A loop, not a recursion: a long run of invalid characters must not
+        // use one stack frame per character.
+        loop {
+            self.retry = false;
+            let token = self.next_or_retry();
+            if !self.retry {
+                return token;
+            }
+        }
+    }
+}
+
+impl<'a> Lexer<'a> {
+    fn next_or_retry(&mut self) -> Option<Token<'a>> {
         // Consume whitespace and comments
         let mut comment_start: Option<usize> = None;
         while let Some(c) = self.s[self.l..self.u].chars().next() {
@@ -375,7 +394,8 @@ impl<'a> Iterator for Lexer<'a> {
                         end: self.l,
                     },
                 });
-                return self.next();
+                self.retry = true;
+                return None;
             }
         };
         Some(Token {
@@ -387,9 +407,7 @@ impl<'a> Iterator for Lexer<'a> {
             },
         })
     }
-}
 
-impl<'a> Lexer<'a> {
     fn parse_number(
         &mut self,
         negative: bool,
